@@ -210,6 +210,14 @@ class Env:
             e.update(env)
         if preload:
             e['LD_PRELOAD'] = SHIM_SO
+            if user is not None:
+                # the subject's loader opens the shim as that user: hand it a copy inside the scratch directory (this
+                # tree may live below a directory other users cannot search, e.g. a copy under /root)
+                mine = os.path.join(self.base, 'libfsxshim.so')
+                if not os.path.exists(mine):
+                    shutil.copyfile(SHIM_SO, mine)
+                    os.chmod(mine, 0o755)
+                e['LD_PRELOAD'] = mine
         cmd = [binary or self.binary] + list(argv)
         if nofile is not None:
             cmd = ['prlimit', '--nofile=%d:%d' % (nofile, nofile)] + cmd
@@ -225,6 +233,9 @@ class Env:
             raise MachineryError('cannot exec subject: %s' % ex)
         try:
             out, err = p.communicate(stdin, timeout=timeout)
+            if preload and b'cannot be preloaded' in err:
+                # the environment model was not in force: whatever the subject did is no verdict
+                raise MachineryError('the LD_PRELOAD shim could not be loaded by the subject: %s' % err[:200].decode('utf-8', 'replace'))
             return Obs(p.returncode, out, err)
         except subprocess.TimeoutExpired:
             try:
